@@ -606,6 +606,19 @@ fn literal_headers(run: &mut Run, tier: Tier) {
                     };
                     if regen != n || hl + comp != b.len() || !fits || (ty == 3) != reuse || (streams == 1) != (sf == 0) {
                         a.bad(format!("compress_literals:header:sf{sf}"), format!("compress_literals({n} literals, reuse = {reuse}) wrote header {} which reads as type {ty}, regenerated {regen}, compressed {comp}, {streams} stream(s), {hl} header bytes; the section has {} bytes after the header", hex(&b[..b.len().min(5)]), b.len() - hl.min(b.len())), rp);
+                    } else if !reuse && (n > 4200 || n % 512 == 0) {
+                        // at the boundary lengths the header is also read back by the decoder proper (not only by
+                        // its header parser): the section as the only block of a frame
+                        let mut frame = zmodel::frame::encode_header(&zmodel::frame::Header::window(0x38, false)).unwrap();
+                        frame.extend(&(((b.len() + 1) as u32) << 3 | 2 << 1 | 1).to_le_bytes()[..3]);
+                        frame.extend(&b);
+                        frame.push(0);
+                        let mut dec = ruzstd::decoding::FrameDecoder::new();
+                        let mut out = Vec::with_capacity(n + 8);
+                        match guarded(|| dec.decode_all_to_vec(&frame, &mut out)) {
+                            Ok(Ok(())) if out == skew[..n] => {}
+                            other => a.bad(format!("compress_literals:decoder_refuses:sf{sf}"), format!("a block holding only the literals section compress_literals wrote for {n} literals (header {}) is not decoded back by the crate: {:?}", hex(&b[..hl]), other.map(|r| r.map_err(|e| e.to_string()))), rp),
+                        }
                     }
                 }
                 other => a.bad("compress_literals:header".into(), format!("compress_literals({n} literals, reuse = {reuse}) wrote header {} read as {:?}", hex(&b[..b.len().min(5)]), other), rp),
